@@ -127,6 +127,13 @@ Proof.
   now apply gsort_perm.
 Qed.
 
+Lemma mmd_e_fits_noskip sT tr : forall (l l' : list (@triple F)), map fst l = map fst l' ->
+  mmd_e_fits sT tr None l = mmd_e_fits sT tr None l'.
+Proof.
+  induction l as [|[[M m] i] l IH]; intros [|[[M' m'] i'] l'] E; cbn [map fst] in E; try discriminate; [reflexivity|].
+  injection E as E1 E2 E3. subst. cbn [mmd_e_fits forallb is_skip orb t_mode fst snd]. f_equal. now apply IH.
+Qed.
+
 (* multi_mode_dot (skip=None): the result does not depend on the order in which the (operand, mode) pairs are listed *)
 Theorem multi_mode_dot_order (T : tensor F) (ops ops' : list (tensor F * nat)) (tr : bool) :
   Permutation ops ops' -> NoDup (map snd ops) ->
@@ -135,7 +142,7 @@ Theorem multi_mode_dot_order (T : tensor F) (ops ops' : list (tensor F * nat)) (
 Proof.
   intros HP Hnd. pose proof (sorted_ops ops ops' HP Hnd) as E. split.
   - unfold multi_mode_dot. now apply mmd_loop_noskip.
-  - unfold multi_mode_dot_e. now rewrite (mmd_e_loop_noskip tr (ndim T) _ _ _ E).
+  - unfold multi_mode_dot_e. cbv zeta. now rewrite (mmd_e_loop_noskip tr (ndim T) _ _ _ E), (mmd_e_fits_noskip (shape T) tr _ _ E).
 Qed.
 
 End P.
